@@ -27,6 +27,33 @@ theorem stepAction_ok (env : Env) (a : Action) (tokens : Array Nat) (s s' : Stat
     NecWF s' ∧ s'.cfg.debug = true :=
   NP.run (fun v => stepAction_np v env a tokens) s s' r hN hd hr
 
+/-- a sequence of driver actions, each returning normally (the token table is threaded as the driver does) -/
+def runActs (env : Env) : List Action → Array Nat → M (Array Nat)
+  | [], t => pure t
+  | a :: as, t => do
+    let r ← stepAction env a t
+    runActs env as r.2
+
+theorem runActs_ok (env : Env) (as : List Action) (t : Array Nat) (s s' : State) (r : Array Nat)
+    (hN : NecWF s) (hd : s.cfg.debug = true) (hr : (runActs env as t).run.run s = (.ok r, s')) :
+    NecWF s' ∧ s'.cfg.debug = true := by
+  induction as generalizing t s with
+  | nil =>
+    simp only [runActs] at hr
+    rw [run_pure] at hr
+    cases hr
+    exact ⟨hN, hd⟩
+  | cons a as ih =>
+    simp only [runActs] at hr
+    rw [run_bind] at hr
+    rcases h1 : (stepAction env a t).run.run s with ⟨r1, s1⟩
+    rw [h1] at hr
+    cases r1 with
+    | error e => cases hr
+    | ok p =>
+      obtain ⟨g1, g2⟩ := stepAction_ok env a t s s1 p hN hd h1
+      exact ih _ _ g1 g2 hr
+
 end IncrVerif.Proofs.Nec
 
 namespace IncrVerif.Proofs.NecRel
@@ -40,5 +67,22 @@ theorem stepAction_release_necwf (env : Env) (a : Action) (tokens : Array Nat) (
     (stepAction env a tokens).run.run s = (.ok r, erase sd') ∧ NecWF (erase sd') ∧ Release (erase sd') :=
   Sim.release (sim_stepAction env a tokens) (fun s s' r => stepAction_ok env a tokens s s' r)
     s hrel hN cr r sd' hdbg
+
+theorem sim_runActs (env : Env) (as : List Action) (t : Array Nat) : Sim (runActs env as t) := by
+  induction as generalizing t with
+  | nil => unfold runActs; sim
+  | cons a as ih =>
+    unfold runActs
+    exact Sim.bind (sim_stepAction env a t) (fun r => ih r.2)
+
+/-- **histories**: if the debug build runs a sequence of actions from the initial state with every action
+returning normally, the release build does too, with the same token table, ends in the erasure of the debug
+build's final state, and that state satisfies the invariant -/
+theorem runActs_release (env : Env) (N : Nat) (as : List Action) (r : Array Nat) (sd' : State)
+    (hdbg : (runActs env as #[]).run.run (State.init N true) = (.ok r, sd')) :
+    (runActs env as #[]).run.run (State.init N false) = (.ok r, erase sd') ∧ NecWF (erase sd') ∧
+      Release (erase sd') :=
+  Sim.release (sim_runActs env as #[]) (fun s s' r => runActs_ok env as #[] s s' r)
+    (State.init N false) (release_init N) (necwf_init N false) none r sd' hdbg
 
 end IncrVerif.Proofs.NecRel
